@@ -107,3 +107,19 @@ def selftest():
         return 0 if ok else 2
     finally:
         work.cleanup()
+
+
+def extra():
+    """specification growth beyond the listed properties (spec/Misc.tla): not a MANIFEST check"""
+    work = Work("extra")
+    try:
+        build_harness()
+        h = run_harness("misc", [{"n": 300, "seed": seed()}], work, "misc")
+        s = tv(h["trace"], "TraceMisc", "TraceMisc", work)
+        print("extra: %d recorded results of %d kinds of small operations checked against Misc.tla, %d disagree" % (s["lines"], s["kinds"], s["bad"]))
+        if s["bad"]:
+            print("  first: %s" % json.dumps(read_trace_lines(h["trace"])[s["firstbad"] - 1])[:400])
+            return 1
+        return 0
+    finally:
+        work.cleanup()
